@@ -2272,6 +2272,8 @@ def run_site_case(synth, by, case):
         if case["cls"] == "AttrTensors":
             return S.run_tensors_case(A, case["form"], case["way"])
         return S.run_class_case(A, case["cls"], case["form"], case["way"], case["items"])
+    if case["level"] == "variadic":
+        return S.run_variadic_case(synth, case, case["way"])
     rows = by.get((case["mod"], case["ctor"]), [])
     row = next((r for r in rows if r["param"] == case["param"]), None)
     if row is None:
@@ -2331,6 +2333,11 @@ def run_site_oracle(ck, sinfo):
                     continue
                 cases.append({"kind": "attr_site", "level": "op", "mod": r["mod"], "ctor": r["ctor"], "param": r["param"],
                               "cls": r["cls"], "form": r["form"], "way": "mixed:" + which})
+    # (d) every constructor parameter typed Sequence[Var]: the caller's list of Vars mutated between call and build
+    for v in sinfo.get("variadics", []):
+        for mut in S.VARIADIC_MUTS:
+            cases.append({"kind": "attr_site", "level": "variadic", "mod": v["mod"], "ctor": v["ctor"], "param": v["param"],
+                          "cls": "variadic", "form": "list", "way": mut})
     stats = {"cases": 0, "skipped_way": 0, "rows_reached": set(), "rows_unreached": {}}
     import warnings
 
@@ -2341,7 +2348,7 @@ def run_site_oracle(ck, sinfo):
         except Exception as e:  # noqa: BLE001  a harness problem is not a verdict
             UNOBSERVABLE.setdefault(f"attribute-site oracle ({case.get('ctor') or case.get('cls')})", f"{type(e).__name__}: {e}"[:200])
             continue
-        rowkey = (case.get("mod"), case.get("ctor"), case.get("param")) if case["level"] == "op" else (case["cls"], case["form"])
+        rowkey = (case.get("mod"), case.get("ctor"), case.get("param")) if case["level"] in ("op", "variadic") else (case["cls"], case["form"])
         if out is not None and out[0] == "skip":
             if out[1] == "way not applicable":
                 stats["skipped_way"] += 1
@@ -2356,7 +2363,9 @@ def run_site_oracle(ck, sinfo):
         if out is not None:
             part, what = out
             where = case["cls"] if case["level"] == "class" else f"{case['mod']}.{case['ctor']}.{case['param']}"
-            ck.failure(f"attr-site:{case['cls']}:{case['form']}:{case['way']}:{part}", f"{where}: {what}", case)
+            key = f"capture:variadic:{case['ctor']}:{case['way']}:{part}" if case["level"] == "variadic" else \
+                f"attr-site:{case['cls']}:{case['form']}:{case['way']}:{part}"
+            ck.failure(key, f"{where}: {what}", case)
     stats["rows_reached"] = len(stats["rows_reached"])
     stats["rows_unreached_n"] = len(stats["rows_unreached"])
     stats["rows_unreached"] = dict(list(stats["rows_unreached"].items())[:12])
@@ -2405,6 +2414,7 @@ def run(ck: core.Check):
         ck.broken("translator", "C10 attribute sites not extractable", f"{type(e).__name__}: {e}"[:300])
     ck.cov["attr_sites"] = {"rows": len(sinfo["rows"]), "per_module": sinfo["per_mod"], "irregular": sinfo["irregular"][:10],
                             "multi_use": sinfo["multi"][:10], "live_mismatches": sinfo["live_mismatches"][:10],
+                            "variadic_parameters": [f"{v['mod']}.{v['ctor']}.{v['param']}" for v in sinfo.get("variadics", [])],
                             "shapes": [f"{x['cls']}/{x['form']}/{'required' if x['required'] else 'optional'}: {x['count']}" for x in sinfo["shapes"]],
                             "required_list_attributes": [f"{r['mod']}.{r['ctor']}.{r['param']}:{r['cls']}" for r in sinfo["rows"]
                                                          if r["form"] == "direct" and r["cls"] in ("AttrInt64s", "AttrFloat32s", "AttrStrings", "AttrTensors")]}
